@@ -199,9 +199,8 @@ Lemma buf_process_neutral c now m w j : Forall (neutral j) (snd (buf_process c n
 Proof.
   unfold buf_process, shutdown_part. cbn [w_mod set_buf set_fes].
   destruct (shut (w_mod w m)) as [r|]; cbn [snd]; [|constructor].
-  apply Forall_app. split; [|repeat constructor]. unfold cancelled. apply Forall_forall. intros it Hin.
-  apply in_flat_map in Hin. destruct Hin as (n & _ & Hin). destruct (existsb _ _); [|destruct Hin].
-  destruct Hin as [<-|[]]. exact I.
+  apply Forall_app. split; [|repeat constructor]. apply Forall_forall. intros it Hin.
+  destruct (cancelled_in _ _ _ _ Hin) as [(id & ->)|(id & ->)]; exact I.
 Qed.
 
 Lemma around_WStep sc now i f w : CbOK i f -> (forall s, SI i s (f s)) -> WStep w (snd (around sc now i f w)) (fst (around sc now i f w)).
